@@ -327,6 +327,50 @@ func checkC18(c *Ctx, r *Report) {
 	checkAnnotationRegex(c, r, "C18.c")
 	// every documented diagnostic code can still be produced
 	checkDiagCodesLive(c, r)
+
+	// a range is a pair of positions: its columns are never ordered across lines on their own
+	{
+		viol := ""
+		var sites []string
+		rrT := w.lookupType("common", "ResolvedRange")
+		for _, fn := range w.SSAFuncs {
+			allInstrs(fn, false, func(f *ssa.Function, _ *ssa.BasicBlock, _ int, ins ssa.Instruction) {
+				st, ok := ins.(*ssa.Store)
+				if !ok {
+					return
+				}
+				fa, ok := st.Addr.(*ssa.FieldAddr)
+				if !ok {
+					return
+				}
+				fv := structFieldVar(fa.X.Type(), fa.Field)
+				if fv == nil || (fv.Name() != "StartCol" && fv.Name() != "EndCol") {
+					return
+				}
+				if own, ok2 := derefNamedOwner(fv, rrT); !ok2 || !own {
+					return
+				}
+				cl, ok := stripTrivial(st.Val).(*ssa.Call)
+				if !ok {
+					return
+				}
+				if nm := calleeName(cl); nm == "builtin.min" || nm == "builtin.max" {
+					// max(x, 0) clamps are fine
+					for _, a := range cl.Call.Args {
+						if k, isK := a.(*ssa.Const); isK && k.Value != nil {
+							return
+						}
+					}
+					sites = append(sites, w.pos(st.Pos()))
+					viol = fmt.Sprintf("%s: %s takes the %s of columns that belong to different positions: a column only orders positions on the same line, so the resulting range can end beyond the last line it covers", w.pos(st.Pos()), fnShort(f), nm)
+				}
+			})
+		}
+		if len(sites) == 0 {
+			sites = append(sites, "gleece:0")
+		}
+		r.add("C18.c", "fieldflow", "ResolvedRange:no-independent-column-minmax", "start and end of a range are taken from positions, never assembled component-wise by min/max", []string{"common.ResolvedRange"}, sites, viol)
+	}
 }
 
 func litString0(e ast.Expr) string {
@@ -469,6 +513,16 @@ func checkRangeRebase(c *Ctx, r *Report) {
 					if !colBase {
 						viol = fmt.Sprintf("%s: %s.%s has no absolute column base", w.pos(sk.Pos), k, fld)
 					}
+				}
+			}
+		}
+		// columns are rune counts: an offset into the comment text reaches a column only through
+		// utf8.RuneCountInString / the rune-aware byteOffsetToLineCol
+		for _, fld := range []string{"StartCol", "EndCol"} {
+			for _, sk := range w.fieldSinks(fi, rr, fld) {
+				a := w.exprAtoms(fi, sk.Expr)
+				if !a.hasCall("unicode/utf8.RuneCountInString") && !a.hasCall("core/annotations.byteOffsetToLineCol") {
+					viol = fmt.Sprintf("%s: %s.%s is computed from byte offsets into the comment text without counting runes (utf8.RuneCountInString / byteOffsetToLineCol): with multibyte characters before or inside the token the range overshoots it and can run past the end of the line", w.pos(sk.Pos), k, fld)
 				}
 			}
 		}
